@@ -3,6 +3,9 @@ package sim
 import (
 	"fmt"
 	"os"
+	"strings"
+	"sync"
+	"sync/atomic"
 	"syscall"
 )
 
@@ -54,7 +57,104 @@ func Replay(w *World, verifDir, path string) int {
 	return 1
 }
 
+// SelfTest proves the simulator's own determinism on a sample: every scenario
+// is executed three times (GOMAXPROCS 1/4/16, different sandbox paths), at two
+// driver worker counts, and the normalised traces and all observable results
+// are compared.
 func SelfTest(w *World, verifDir, tier string, seed uint64) int {
-	fmt.Println("selftest: not built yet")
-	return 2
+	n := 30
+	if tier == "thorough" {
+		n = 500
+	}
+	type item struct {
+		id string
+		sc *Scenario
+	}
+	stats := NewStats()
+	cache := &refCache{m: map[string]*Outcome{}}
+	var items []item
+	gctx := &Ctx{W: w, Slot: 0, Stats: stats, Tier: tier, cache: cache, Quiet: true}
+	for _, id := range []string{"C10", "C11", "C12", "C19", "C18"} {
+		chk := CheckByID(id)
+		for i := 0; i < n; i++ {
+			sc := chk.Generate(gctx, NewRand(Mix(seed, "selftest"+id, uint64(i))), i)
+			if sc != nil {
+				sc.Prop = id
+				items = append(items, item{id, sc})
+			}
+		}
+	}
+	fmt.Printf("selftest: %d scenarios x 3 executions x 2 worker counts\n", len(items))
+	type obs struct{ trace, out string }
+	observe := func(slot int, sc *Scenario, gmp int) obs {
+		if sc.Kind == "lib" || sc.Lib != nil {
+			mode := sc.Lib.Mode
+			if mode == "race" {
+				mode = "interleave"
+			}
+			r := w.RunLib(w.LibSim, mode, sc, 0, RunOpts{Slot: slot, GOMAXPROCS: gmp})
+			var b strings.Builder
+			for _, x := range r.Results {
+				fmt.Fprintf(&b, "%d|%s|%s;", x.Job, x.Out, x.Err)
+			}
+			return obs{trace: r.ScheduleSig + fmt.Sprint(r.Yields, r.Switches, r.Sites), out: b.String() + fmt.Sprint(r.Exit, r.Signal)}
+		}
+		o := w.Run(sc, RunOpts{Slot: slot, GOMAXPROCS: gmp})
+		var tb strings.Builder
+		for _, e := range o.Events {
+			fmt.Fprintf(&tb, "%d %d %s %s %d %s %s;", e.Seq, e.Yields, e.Kind, maskSite(e.Site), e.Occ, e.Decision, maskSite(e.Info))
+		}
+		return obs{trace: tb.String(), out: fmt.Sprintf("%d|%d|%s|%s|%s", o.Exit, o.Signal, o.Stdout, maskStderr(o.Stderr), filesDigest(o.Files))}
+	}
+	bad := 0
+	var mu sync.Mutex
+	results := make([][]obs, len(items))
+	for _, workers := range []int{2, 16} {
+		var wg sync.WaitGroup
+		var next int64 = -1
+		for wk := 0; wk < workers; wk++ {
+			wg.Add(1)
+			go func(slot int) {
+				defer wg.Done()
+				for {
+					i := int(atomic.AddInt64(&next, 1))
+					if i >= len(items) {
+						return
+					}
+					for k, gmp := range []int{1, 4, 16} {
+						o := observe(2000+slot*3+k, items[i].sc, gmp)
+						mu.Lock()
+						results[i] = append(results[i], o)
+						mu.Unlock()
+					}
+				}
+			}(wk)
+		}
+		wg.Wait()
+	}
+	knownFM := 0
+	for i, rs := range results {
+		for _, o := range rs[1:] {
+			if o.out != rs[0].out {
+				argv := strings.Join(items[i].sc.Argv, " ")
+				if strings.Contains(argv, "--front-matter") && strings.Contains(argv, "filename") {
+					knownFM++
+					break
+				}
+				fmt.Printf("selftest: OBSERVABLE outcome differs between executions of one scenario (that is a C18 violation, see ./check C18): %s %v\n", items[i].id, items[i].sc.Argv)
+				bad++
+				break
+			}
+			if o.trace != rs[0].trace {
+				fmt.Printf("HARNESS: trace differs between executions of one scenario with equal outcome (simulator nondeterminism): %s %v\n", items[i].id, items[i].sc.Argv)
+				bad++
+				break
+			}
+		}
+	}
+	fmt.Printf("selftest: scenarios=%d executions=%d divergent=%d (front-matter filename known finding: %d)\n", len(items), len(items)*6, bad, knownFM)
+	if bad > 0 {
+		return 2
+	}
+	return 0
 }
